@@ -72,6 +72,7 @@ func init() {
 			ruleNilDecoder(c, r, "")
 			ruleCounting(c, r, "", "read")
 			ruleRawEOFFlag(c, r, "")
+			ruleReaderFrom(c, r, "")
 			ruleCheckEncoding(c, r, "")
 			ruleDictCapDecode(c, r, "")
 			ruleLzmaFilterCodec(c, r, "")
